@@ -252,4 +252,87 @@ theorem adjust_noname (d : Disp (FullSt cfg)) (hp : d.pendingAux = false) (input
     simp only [TagOutline.name, TagOutline.nameHash] at hl
     simp only [hl]
 
+/-- `try_produce_token_from_lexeme` on a non-tag lexeme: nothing, a dispatcher slice failure, or ONE
+text / comment / doctype token through the controller -/
+theorem produceNonTag_full (d : Disp (FullSt cfg)) (input : Bytes) (lx : NonTagLexeme) :
+    ((d.produceNonTag (fullCtl cfg) input lx).2 = .ok () ∧ (d.produceNonTag (fullCtl cfg) input lx).1.ctl = d.ctl ∧
+      SameBut d (d.produceNonTag (fullCtl cfg) input lx).1) ∨
+    (∃ e, DispOwn e ∧ (d.produceNonTag (fullCtl cfg) input lx).2 = .error e) ∨
+    (∃ tok, (CtlEv.other tok).WellKinded ∧
+      (d.produceNonTag (fullCtl cfg) input lx).1.ctl.1 = (token cfg d.ctl.1 tok).1 ∧
+      SameBut d (d.produceNonTag (fullCtl cfg) input lx).1 ∧
+      (d.produceNonTag (fullCtl cfg) input lx).2 =
+        (match (token cfg d.ctl.1 tok).2.err with
+         | some e => .error e
+         | none => .ok ())) := by
+  unfold Disp.produceNonTag
+  split
+  · rename_i tt _
+    split
+    · -- a text lexeme under the TEXT flag
+      unfold Disp.produceText
+      cases h3 : checkedSlice input lx.raw with
+      | none => exact Or.inr (Or.inl ⟨_, Or.inr (Or.inr (Or.inr rfl)), rfl⟩)
+      | some raw =>
+        simp only
+        cases hc : d.emitChunkBefore input lx.raw with
+        | error e =>
+          unfold Disp.emitChunkBefore at hc
+          split at hc
+          · simp only [Except.error.injEq] at hc
+            exact Or.inr (Or.inl ⟨e, Or.inr (Or.inr (Or.inl hc.symm)), by simp [DRes.bind, DRes.ofExcept]⟩)
+          · simp at hc
+        | ok d1 =>
+          have hd1 : d1.ctl = d.ctl ∧ d1.pendingAux = d.pendingAux ∧ d1.gotFlagsFromHint = d.gotFlagsFromHint := by
+            unfold Disp.emitChunkBefore at hc
+            split at hc
+            · simp at hc
+            · simp only [Except.ok.injEq] at hc
+              rw [← hc]
+              dsimp only
+              split <;> exact ⟨rfl, rfl, rfl⟩
+          refine Or.inr (Or.inr ⟨.text raw tt false (srcOf lx.prevConsumed lx.raw), trivial, ?_⟩)
+          simp only [DRes.bind, DRes.ofExcept]
+          have hctl : ({ d1 with lastTextType := tt } : Disp (FullSt cfg)).ctl = d.ctl := hd1.1
+          have hpa : ({ d1 with lastTextType := tt } : Disp (FullSt cfg)).pendingAux = d.pendingAux := hd1.2.1
+          have hgf : ({ d1 with lastTextType := tt } : Disp (FullSt cfg)).gotFlagsFromHint = d.gotFlagsFromHint := hd1.2.2
+          generalize ({ d1 with lastTextType := tt } : Disp (FullSt cfg)) = d1' at hctl hpa hgf ⊢
+          obtain ⟨t1, _, t3, t4⟩ := tokenProduced_full (cfg := cfg) d1' (.text raw tt false (srcOf lx.prevConsumed lx.raw))
+          rw [hctl] at t1 t4
+          cases he : (token cfg d.ctl.1 (.text raw tt false (srcOf lx.prevConsumed lx.raw))).2.err with
+          | some e =>
+            rw [he] at t4
+            rw [t4]
+            exact ⟨t1, ⟨t3.pa.trans hpa, t3.gf.trans hgf⟩, rfl⟩
+          | none =>
+            rw [he] at t4
+            rw [t4]
+            exact ⟨t1, ⟨t3.pa.trans hpa, t3.gf.trans hgf⟩, rfl⟩
+    · exact Or.inl ⟨rfl, rfl, ⟨rfl, rfl⟩⟩
+  · rename_i hnt
+    cases hn : nonTagToToken d.flags input lx with
+    | none => exact Or.inr (Or.inl ⟨_, Or.inr (Or.inl rfl), rfl⟩)
+    | some ot =>
+      cases ot with
+      | none => exact Or.inl ⟨rfl, rfl, ⟨rfl, rfl⟩⟩
+      | some tok =>
+        simp only
+        have hkind : (CtlEv.other tok).WellKinded := by
+          unfold nonTagToToken at hn
+          split at hn
+          · split at hn
+            · split at hn
+              · simp only [Option.some.injEq] at hn; rw [← hn]; trivial
+              · simp at hn
+            · simp at hn
+          · split at hn
+            · split at hn
+              · simp only [Option.some.injEq] at hn; rw [← hn]; trivial
+              · simp at hn
+            · simp at hn
+          · simp at hn
+        rcases emitToken_full (cfg := cfg) d input lx.raw tok with ⟨e, he, h4, _⟩ | ⟨h4, h5, h6⟩
+        · exact Or.inr (Or.inl ⟨e, he, h4⟩)
+        · exact Or.inr (Or.inr ⟨tok, hkind, h4, h5, h6⟩)
+
 end LolHtml.Model.Full
